@@ -1,4 +1,5 @@
 """C03 - no source text or script can crash or panic the embedding process."""
+import json
 import os
 import resource
 import select
@@ -6,7 +7,7 @@ import subprocess
 import time
 from concurrent.futures import ThreadPoolExecutor
 
-from lib import common as C, core, gen, gen_threads
+from lib import common as C, core, gen, gen_threads, gen_options
 from checks import c20
 
 PROP = "C03"
@@ -140,6 +141,21 @@ def shared_container_fault(src, outcome):
         if re.search(r"\b%s\[[^\]]*\]\s*(=|\+=|-=)[^=]" % name, src) or re.search(r"\b%s\.(add|update|delete|clear|pop|remove|set|setdefault)\(" % name, src):
             return True
     return False
+
+
+def rejected_kind_panic(case, outcome):
+    """Known-finding class `unsupported-global-kind-rejected-by-panic`, decided on the input AND on the fault: the option list
+    holds a Go value of a kind the converters reject, and EVERY panic that escaped is the rejection itself."""
+    if not gen_options.has_unsupported(case["opts"]):
+        return False
+    pan = [w for w in outcome.split(" ") if w.startswith("GOPANIC:")]
+    if not pan or outcome.startswith("FATAL") or outcome == "HANG":
+        return False
+    for w in pan:
+        text = w.split(":", 2)[2] if w.count(":") >= 2 else ""
+        if not (text.startswith("invalid_global_provided:") or text.startswith("interface_conversion:_interface_{}_is_time.Duration")):
+            return False
+    return True
 
 
 def set_limits():
@@ -344,6 +360,27 @@ def run(res):
             inputs.append(("truncation", progs[i][:t[1]] if rng.chance(1, 2) else progs[i][:t[2] + 1]))
             cnt += 1
 
+    # the embedding API driven by OPTION values (no hostile source involved): deny lists and overrides with every shape of
+    # name (plain / dotted / nested / unknown / head not a module / head removed or replaced by the same list / degenerate),
+    # host globals of every supported kind (and the rejected kinds), switches, OS / importer / VM options, any order, the
+    # same option twice; each configuration goes through NewConfig + accessors, Eval, Compile + EvalCode, Call, several times
+    # (deny lists and overrides are Go maps).  Own random stream: the other streams stay as they were.
+    orng = C.Rng(res.seed ^ 0x6f7074696f6e73)
+    rc_g, out_g, _ = C.run([exe], input=b"?globals\n", timeout=60)
+    globs = gen_options.parse_globals(out_g.decode("utf-8", "replace") if isinstance(out_g, bytes) else out_g)
+    if len(globs) < 10:
+        res.violation({"property": PROP, "kind": "harness-failed", "stage": "c03obs ?globals", "log": "only %d default globals reported" % len(globs)},
+                      nofail=True, tag="build")
+        return
+    og = gen_options.OptGen(orng, globs)
+    optcases = og.systematic() + [og.random_case() for _ in range(500 if tier == "quick" else 20000)]
+    opt_reps = 6 if tier == "quick" else 12
+    opt_of = {}       # index in inputs -> case
+    for c in optcases:
+        opt_of[len(inputs)] = c
+        inputs.append(("options:" + c["family"], json.dumps(c["opts"], ensure_ascii=False)))
+    cov["default_globals_seen"] = len(globs)
+
     # cyclic inputs each in their own child (they are expected to kill it): keeps the others in big batches
     nsh = C.NCPU
     order = [k for k in range(len(inputs)) if not inputs[k][0].startswith("cyclic")]
@@ -352,6 +389,8 @@ def run(res):
     outcomes = [None] * len(inputs)
 
     def line_of(k):
+        if k in opt_of:
+            return gen_options.line_of(opt_of[k], opt_reps)
         if k in extra:
             return stress_line(inputs[k][1], extra[k][0], extra[k][1])
         return inputs[k][1].encode("utf-8", "surrogateescape").hex()
@@ -364,6 +403,15 @@ def run(res):
             for k, o in zip(idx, r):
                 outcomes[k] = o
 
+    # timeouts are not observations: an input whose child gave no answer within the watchdog's bound while 16 children (and
+    # other checks) shared the machine is run again, alone, with a generous bound; only that second observation is judged
+    hung = [k for k in range(len(inputs)) if outcomes[k] == "HANG"]
+    for k in hung[:4]:
+        outcomes[k] = run_isolated(exe, [line_of(k)], per_input_timeout=400, raw=True)[0]
+    for k in hung[4:]:
+        outcomes[k] = "UNOBSERVED-slow" if not any(outcomes[j] == "HANG" for j in hung[:4]) else "HANG"
+    cov["rerun_alone_after_watchdog"] = len(hung)
+
     oracle = []
     hist = {}
     stage_hist = {}
@@ -371,6 +419,8 @@ def run(res):
     known_ids = set(kf.get("id") for kf in load_known_all())
     for k_in, ((kind, src), o) in enumerate(zip(inputs, outcomes)):
         kk = kind.split(":")[0] if not kind.startswith("threads:s") else ":".join(kind.split(":")[:2])
+        if k_in in opt_of:
+            kk = ":".join(kind.split(":")[:2])
         hist[kk] = hist.get(kk, 0) + 1
         if o is None:
             o = "NO-RESULT"
@@ -390,6 +440,21 @@ def run(res):
             res.known_finding("several threads of one script writing the same script-level map or set (m[k] = v, s.add(x), update, delete) end the "
                               "embedding process with Go's `fatal error: concurrent map writes`: object.Map / object.Set are unsynchronised "
                               "(e.g. `m := {}; for i := range 8 { spawn(func(k) { for j := range 3000 { m[string(j)] = k } }, i) }`)")
+            continue
+        if k_in in opt_of:
+            if "unsupported-global-kind-rejected-by-panic" in known_ids and rejected_kind_panic(opt_of[k_in], o):
+                res.known_finding("a host global (or override) whose Go value is of a kind the converters do not support (chan, func, complex, "
+                                  "uintptr, map with a non-string key, declared scalar types such as time.Duration) is rejected by a Go panic in the "
+                                  "caller of Eval / EvalCode / Call (vm.New: `invalid global provided`), not by an error")
+                continue
+            c = opt_of[k_in]
+            v = {"kind": "oracle-violation", "input_kind": kind, "options": c["opts"], "sources": c["sources"], "call": c["call"],
+                 "repetitions": opt_reps, "outcome": o[:700],
+                 "why": "the embedding API did not return normally for this CONFIGURATION (no hostile source involved): "
+                        + ("the process died" if o.startswith("FATAL") else "no answer within the time limit" if o == "HANG" else
+                           "a Go panic propagated to the caller of " + ", ".join(sorted(set(w.split(":")[1] for w in o.split(" ") if w.startswith("GOPANIC:")))))
+                        + " (options are listed in the order given; deny lists and overrides are Go maps inside the Config, so every configuration is tried %d times)" % opt_reps}
+            oracle.append(v)
             continue
         v = {"kind": "oracle-violation", "input_kind": kind, "source": src if len(src) < 4000 or k_in in extra else src[:2000] + " ...[%d chars]" % len(src),
              "outcome": o[:700]}
@@ -411,7 +476,10 @@ def run(res):
                    "Program.String, compiler.Compile, risor.Eval with the default globals (minus the modules that reach the real "
                    "machine) and the host-side Inspect/Interface/Equals/HashKey of the result, in child processes under a memory limit "
                    "and a watchdog; a Go panic escaping an API call, the death of the child or a hang is a violation. "
-                   "Non-trivial = distinct inputs." % (len(HOSTILE) + len(CYCLIC) + len(CYCLIC_PRINT)))
+                   "Option route: %d configurations (every shape of deny / override name derived from the running packages' globals and from host-assembled "
+                   "nested modules; host values of every kind; switches; OS / importer / VM; shuffled, repeated) through NewConfig and its accessors, Eval, "
+                   "Compile + EvalCode and Call, each %d times. "
+                   "Non-trivial = distinct inputs." % (len(HOSTILE) + len(CYCLIC) + len(CYCLIC_PRINT), len(optcases), opt_reps))
     cov["samples"] = [{"kind": inputs[k][0], "source": inputs[k][1][:200], "outcome": outcomes[k]} for k in (0, 5, len(HOSTILE) + 10, len(inputs) - 1)]
     cov["input_distribution"] = hist
     cov["outcome_distribution"] = dict(sorted(stage_hist.items(), key=lambda kv: -kv[1])[:20])
@@ -438,6 +506,11 @@ def replay(data):
     print(json.dumps(data, indent=1)[:3000])
     exe, err = C.go_build("c03obs")
     src = data.get("source")
+    if exe and data.get("options") is not None:
+        case = {"opts": data["options"], "sources": data.get("sources") or ["1 + 1"], "call": data.get("call") or []}
+        o = run_isolated(exe, [gen_options.line_of(case, 4 * int(data.get("repetitions") or 6))], raw=True)
+        print(o)
+        return 1 if (o[0] or "").startswith("FATAL") or o[0] == "HANG" or "GOPANIC" in (o[0] or "") or not o[0] else 0
     if exe and src:
         if data.get("evaluations_per_input"):
             o = run_isolated(exe, [stress_line(src, data.get("modules") or {}, 5 * int(data["evaluations_per_input"]))], raw=True)
